@@ -4,7 +4,7 @@
    DESIGN.md). *)
 From Coq Require Import List ZArith Bool.
 From JSL Require Import Base.Res Base.ListX SM.Types SM.Util SM.Handler SM.Step SM.Inv
-  SMP.Post SMP.PostApply SMP.Offers SMP.Clock.
+  SMP.Post SMP.PostApply SMP.Offers SMP.Clock SM.Middleware SM.ExampleShift SMP.StepInv SMP.LiftSide SMP.OutputDone SMP.Reflect SMP.LiftProv SMP.ProvBatch SMP.Durations.
 Import ListNotations.
 
 (* SETUP->WORKING: the operation is stamped start = now, planned end = now + d where d is the configured
@@ -79,4 +79,42 @@ Proof.
   intros i now m ms tr H Hs. destruct (timed_machine_spec i now m ms tr H) as [[z [j [Ho [Hz _]]]]|[c [j [Hi _]]]].
   - eauto.
   - congruence.
+Qed.
+Print Assumptions C02_not_early.
+
+(* Over whole runs (SMP/Durations.v): in EVERY state and micro-state of EVERY run of the middleware - any action sequence
+   of any length, any oracle, fuel and truncation setting - on an instance whose machine post-buffers are unordered
+   (FLEX, the compiler's default), every DONE operation whose configured duration is deterministic lasted AT LEAST that
+   duration, and EXACTLY that duration on a machine without outage configuration (durations_b, evaluated by the
+   monitors on every implementation state, all instances). The proof shows that every machine transition is applied
+   exactly when due: not early (created when occupied_till <= now; nothing else in its batch touches that machine or
+   moves its job), not late (clock invariant), and that a busy machine's PROCESSING record ends at the machine's
+   occupied_till - so OUTAGE starts at start + d and adds exactly the outage time, and completion does not move the end. *)
+Theorem C02_durations_reachable_flex :
+  forall (sigma : oracle) (i : inst) (fuel : nat) (x0 : state) (joker0 : Z) (ta : bool) (r : result) (m : mw),
+    inst_nonneg_b i = true -> flex_post_b i = true ->
+    clock_b x0 = true -> wfs_b i x0 = true -> fresh2_b i x0 = true -> nodep_b x0 = true ->
+    reach sigma i fuel x0 joker0 ta r m -> durations_b i (r_x r) = true.
+Proof. intros sigma i fuel x0 joker0 ta r m Hnn Hf. apply flex_durations; auto. Qed.
+Print Assumptions C02_durations_reachable_flex.
+
+Theorem C02_durations_micro_states_flex :
+  forall (sigma : oracle) (i : inst) (fuel : nat) (x0 : state) (joker0 : Z) (ta : bool) (r : result) (m : mw)
+         (a : Z) (r' : result) (m' : mw) (lg : mlog),
+    inst_nonneg_b i = true -> flex_post_b i = true ->
+    clock_b x0 = true -> wfs_b i x0 = true -> fresh2_b i x0 = true -> nodep_b x0 = true ->
+    reach sigma i fuel x0 joker0 ta r m -> mw_step sigma i fuel r m a = MOk r' m' lg ->
+    forall tr y, In (tr, y) lg -> durations_b i y = true.
+Proof. intros sigma i fuel x0 joker0 ta r m a r' m' lg Hnn Hf. apply flex_micro_durations; auto. Qed.
+Print Assumptions C02_durations_micro_states_flex.
+
+(* non-vacuity: the clause speaks about something - a run of a compiled instance (AGV, outages, deterministic
+   durations) reaches a state with DONE operations *)
+Example C02_durations_nontrivial :
+  exists r m, reach sh_sigma sh_inst 200 sh_init0 3%Z true r m
+              /\ existsb (fun jb => existsb (is_ostate ODone) (j_ops jb)) (s_jobs (r_x r)) = true
+              /\ durations_b sh_inst (r_x r) = true.
+Proof.
+  destruct (runG sh_sigma sh_inst side2 200 sh_init0 3%Z true [1;1;1;1]%Z) as [[r m]|] eqn:E; [|vm_compute in E; discriminate].
+  exists r, m. split; [eapply reachG_reach; eapply runG_reach; exact E|]. vm_compute in E. inversion E; subst. vm_compute. split; reflexivity.
 Qed.
